@@ -205,11 +205,13 @@ if not c.quick and action_cov:
 
 # ---------------- 2+3. real code: record, enumerate every crash point ----------------
 if c.quick:
-    hists = [['W', 'W', 'F', 'W', 'M', 'F'], ['W', 'Fw', 'F', 'Mw', 'F']]
+    # 'Fww' / 'Mww': two batches acknowledged while the flush / merge writes its files - the manifest it publishes names two
+    # parts that exist only in memory, the next round flushes both
+    hists = [['W', 'W', 'F', 'W', 'M', 'F'], ['W', 'Fw', 'F', 'Mw', 'F'], ['W', 'Fww', 'F']]
     subset = 4
 else:
     hists = [['W', 'W', 'F', 'W', 'M', 'F'], ['W', 'Fw', 'F', 'Mw', 'F'], ['W', 'F', 'W', 'F', 'M', 'W', 'F'], ['W', 'W', 'W', 'F', 'M', 'W', 'Fw', 'M', 'F'],
-             ['W', 'Fw', 'Fw', 'F', 'M', 'W', 'W', 'F', 'Mw', 'F', 'M']]
+             ['W', 'Fw', 'Fw', 'F', 'M', 'W', 'W', 'F', 'Mw', 'F', 'M'], ['W', 'Fww', 'F'], ['W', 'Fw', 'Mww', 'Fw', 'F', 'M']]
     subset = 6
 # one seeded variation of the data shape
 import random
@@ -318,6 +320,7 @@ for sig, (v, job) in sorted(seen.items()):
                          max_subset=ro['max_subset'], id=900), trace=False)
     if not [x for x in again['violations'] if x['signature'] == sig]:
         c.unreproduced('violation %s not reproduced on a second run' % sig)
+        continue
     reproduced += 1
     c.report(sig, v['detail'], ro)
 for tag, h in hypotheses.items():
